@@ -396,3 +396,29 @@ Definition sp_n (cf : config) (out : outcome) : nat :=
    (complement of the finding predicate tm.second-phase.failed-result) *)
 Definition never_failed (w : world) : bool :=
   forallb (fun r => negb (reply_eqb r RFailed)) (w_script w) && negb (reply_eqb (w_default w) RFailed).
+
+(* ---------------------------------------------------------------- per-transaction observables over programs *)
+(* second-phase requests naming xid x, with their replies, in order *)
+Definition names (x : N) (e : ev) : bool :=
+  match e with EReq (QCommit y) _ | EReq (QRollback y) _ => y =? x | _ => false end.
+Definition seg (x : N) (t : list ev) : list ev := filter (names x) t.
+(* every WithGlobalTx call of a program *)
+Fixpoint subscopes (s : scope) : list scope :=
+  match s with Scope _ _ _ kids _ => s :: flat_map subscopes kids end.
+Definition sp_q (out : outcome) (x : N) : req := if out_ok out then QCommit x else QRollback x.
+
+(* the scope s (one WithGlobalTx call of the program) began transaction x and is the one that
+   decided it: every request naming x in the whole trace is ITS decision -- commit iff its
+   business returned nil, rollback otherwise, never both; resent only after transport failures, at
+   most the configured number of times; and the value it returned is nil exactly when its business
+   returned nil and the last reply to its commit was a well-formed response *)
+Definition decided (cf : config) (x : N) (s : scope) (t : list ev) : Prop :=
+  match s with
+  | Scope m id sh kids out =>
+      exists reps,
+        seg x t = map (EReq (sp_q out x)) reps /\ reps <> [] /\
+        Forall (fun r => transport_error r = true) (removelast reps) /\
+        (sp_n cf out <> 0%nat -> (List.length reps <= sp_n cf out)%nat) /\
+        In (EReq (QBegin id) ROk) t /\ In (EEnter id x Launcher id) t /\
+        exists res, In (ERet id res) t /\ (res = RNilC <-> out = ONil /\ acked (last reps RNil) = true)
+  end.
